@@ -14,8 +14,8 @@ Cplx == Profile = "C"
 Small == Size \in {"s", "l"}      \* small alphabets: exhaustive quick runs and deep simulation
 
 MC_W == IF Profile = "RW" THEN <<Q(2, 1), Q(1, 2)>> ELSE <<QOne, QOne>>
-MC_Scal == IF Cplx THEN (IF Small THEN {R(2), Z(0, 1)} ELSE {R(0), R(2), Z(0, 1), Z(1, -1)})
-           ELSE (IF Small THEN {R(2), R(-1)} ELSE {R(0), R(2), R(-1), RQ(1, 2)})
+MC_Scal == IF Cplx THEN (IF Small THEN {R(0), R(2), Z(0, 1)} ELSE {R(0), R(1), R(2), Z(0, 1), Z(1, -1)})
+           ELSE (IF Small THEN {R(0), R(2), R(-1)} ELSE {R(0), R(1), R(2), R(-1), RQ(1, 2)})
 MC_Vecs == IF Cplx THEN (IF Small THEN {<<Z(1, 1), R(2)>>} ELSE {<<Z(1, 1), R(2)>>, <<R(-1), Z(0, 2)>>})
            ELSE (IF Small THEN {<<R(3), R(-1)>>} ELSE {<<R(3), R(-1)>>, <<R(-2), RQ(1, 2)>>})
 MC_Mats == IF Cplx THEN {<<<<R(1), Z(0, 1)>>, <<R(0), R(2)>>>>}
